@@ -9,6 +9,10 @@ Layers
 * §4 Impl models of DATEDIFF / TIMESTAMPDIFF (`monthsDiff`, `microsecondsDiff`; function/time_math.go) + Specs
 * §5 Impl model of `dateparse.ParseDateWithFormat` (sql/planbuilder/dateparse, STR_TO_DATE) + Spec
 * §6 Impl model of `formatDate` (function/date_format.go, DATE_FORMAT)
+* §7 the item grammar of complete formats (round-trip theorem)
+* §8 Impl model of `datetimeType.SQL` (sql/types/datetime.go `appendDateFormat`/`appendDatetimeFormat`,
+     sql/types/time.go `appendTimeFormat`/`appendMicroseconds`: the text a client is sent) + Spec (canonical text);
+     Impl model of `types.ValidateTime` (the result range of DATE_ADD / DATE_SUB) + Spec (years 0..9999)
 
 All calendar fields are `Int` so that `omega` applies directly.
 -/
@@ -862,5 +866,127 @@ def maskFields (l : List Item) (f : Fields) : Fields :=
     mi := if l.contains .i then f.mi else 0,
     s := if l.contains .s then f.s else 0,
     ns := if l.contains .f then f.ns / 1000 * 1000 else 0 }
+
+/-! ## 8. The SQL text of a DATE / DATETIME value (sql/types: `datetimeType.SQL`)
+
+What a client is sent for a temporal result (`appendDateFormat`, `appendDatetimeFormat` of
+sql/types/datetime.go, `appendTimeFormat` / `appendMicroseconds` of sql/types/time.go). The Spec is
+the text of the canonical format `%Y-%m-%d[ %H:%i:%s[.%f]]`, i.e. what DATE_FORMAT gives and what
+reads back as the same value. -/
+
+/-- Go: `strconv.AppendInt(dest, v, 10)` -/
+def showInt (v : Int) : Str := if v < 0 then 45 :: showNat (-v).toNat else showNat v.toNat
+
+/-- `types.ZeroTime = time.Date(0, 0, 0, 0, 0, 0, 0, time.UTC)` (30 November of the year −1) -/
+def zeroTime : Int := goDate ⟨0, 0, 0, 0, 0, 0, 0⟩
+
+/-- `appendDateFormat` after the ZeroTime test: the year is written by `strconv.AppendInt` —
+*without padding* — except that year 0 is written `0000`; month and day as two digits. -/
+def sqlDateImplF (f : Fields) : Str :=
+  (if f.y = 0 then [48, 48, 48, 48] else showInt f.y) ++
+    [45, digit (f.mo.toNat / 10), digit f.mo.toNat, 45, digit (f.d.toNat / 10), digit f.d.toNat]
+
+/-- the zero-padding loop of `appendMicroseconds`: `for cmp > 1 && subSeconds < cmp { '0'; cmp /= 10 }` -/
+def microZeros : Nat → Nat → Nat → Str
+  | 0, _, _ => []
+  | fuel + 1, cmp, sub => if cmp > 1 ∧ sub < cmp then 48 :: microZeros fuel (cmp / 10) sub else []
+
+/-- `appendMicroseconds(dest, microseconds, precision)`, precision 0..6 -/
+def sqlMicrosImpl (us prec : Nat) : Str :=
+  if prec = 0 then []
+  else
+    let sub := us / 10 ^ (6 - prec)
+    46 :: (microZeros prec (10 ^ (prec - 1)) sub ++ showNat sub)
+
+/-- `appendTimeFormat(dest, h, m, s, ms, msPrecision)` -/
+def sqlTimeImplF (f : Fields) (prec : Nat) : Str :=
+  (if f.h < 10 then [48] else []) ++ showInt f.h ++
+    [58, digit (f.mi.toNat / 10), digit f.mi.toNat, 58, digit (f.s.toNat / 10), digit f.s.toNat] ++
+    sqlMicrosImpl (f.ns / 1000).toNat prec
+
+/-- Impl model of `datetimeType.SQL` for base type DATE -/
+def sqlDateImpl (t : Int) : Str :=
+  if t = zeroTime then ofString "0000-00-00" else sqlDateImplF (fieldsOf t)
+
+/-- Impl model of `datetimeType.SQL` for base type DATETIME / TIMESTAMP of precision `prec` -/
+def sqlDatetimeImpl (t : Int) (prec : Nat) : Str :=
+  if t = zeroTime then
+    ofString "0000-00-00 00:00:00" ++ (if prec = 0 then [] else 46 :: List.replicate prec 48)
+  else sqlDateImplF (fieldsOf t) ++ [32] ++ sqlTimeImplF (fieldsOf t) prec
+
+/-- Spec: `%Y-%m-%d` — a four-digit year (years 0..9999) -/
+def sqlDateSpecF (f : Fields) : Str :=
+  padShow 4 f.y.toNat ++ [45] ++ padShow 2 f.mo.toNat ++ [45] ++ padShow 2 f.d.toNat
+
+/-- Spec: `%H:%i:%s` and, for a type with fraction digits, `.` and exactly `prec` digits -/
+def sqlTimeSpecF (f : Fields) (prec : Nat) : Str :=
+  padShow 2 f.h.toNat ++ [58] ++ padShow 2 f.mi.toNat ++ [58] ++ padShow 2 f.s.toNat ++
+    (if prec = 0 then [] else 46 :: padW prec ((f.ns / 1000).toNat / 10 ^ (6 - prec)))
+
+def sqlDateSpec (t : Int) : Str := sqlDateSpecF (fieldsOf t)
+
+def sqlDatetimeSpec (t : Int) (prec : Nat) : Str :=
+  sqlDateSpecF (fieldsOf t) ++ [32] ++ sqlTimeSpecF (fieldsOf t) prec
+
+/-- Region: the value's year is 1..999 (the year is written with fewer than four digits) -/
+def datetime_text_year_below_1000 (t : Int) : Bool :=
+  decide (1 ≤ (fieldsOf t).y) && decide ((fieldsOf t).y ≤ 999)
+
+/-- The temporal result types of the `sqlx` correspondence stream -/
+inductive SqlKind where
+  | date | datetime (prec : Nat)
+deriving DecidableEq, Repr
+
+/-- the harness' names of the types (`types.Date`, `types.Datetime`, `types.Datetime3`, `types.DatetimeMaxPrecision`) -/
+def SqlKind.ofName? : String → Option SqlKind
+  | "date" => some .date
+  | "datetime" => some (.datetime 0)
+  | "datetime3" => some (.datetime 3)
+  | "datetime6" => some (.datetime 6)
+  | _ => none
+
+def sqlTextImpl (k : SqlKind) (t : Int) : Str :=
+  match k with
+  | .date => sqlDateImpl t
+  | .datetime p => sqlDatetimeImpl t p
+
+def sqlTextSpec (k : SqlKind) (t : Int) : Str :=
+  match k with
+  | .date => sqlDateSpec t
+  | .datetime p => sqlDatetimeSpec t p
+
+/-! ### the result range of DATE_ADD / DATE_SUB (`types.ValidateTime`, function/time_math.go) -/
+
+/-- `datetimeMaxTime = time.Date(9999, 12, 31, 23, 59, 59, 999999000, time.UTC)` -/
+def maxTime : Int := goDate ⟨9999, 12, 31, 23, 59, 59, 999999000⟩
+
+/-- the first instant of the year 0 (`0000-01-01 00:00:00`) -/
+def yearZeroStart : Int := goDate ⟨0, 1, 1, 0, 0, 0, 0⟩
+
+/-- Impl model of `types.ValidateTime`: `nil` when `t.Before(datetimeMinTime) || t.After(datetimeMaxTime)`,
+where `datetimeMinTime = ZeroTime` — Go's rendering of MySQL's `0000-00-00`, which is 30 November of
+the year −1. -/
+def validateTime (t : Int) : Option Int := if t < zeroTime ∨ t > maxTime then none else some t
+
+/-- Spec: a temporal result exists iff it is an instant of the years 0..9999
+(`0000-01-01 00:00:00` … `9999-12-31 23:59:59.999999`); otherwise the result is NULL. -/
+def validateTimeSpec (t : Int) : Option Int := if t < yearZeroStart ∨ t > maxTime then none else some t
+
+/-- Region: the result falls into the 32 days between `ZeroTime` and the start of the year 0 -/
+def dateadd_result_before_year_zero (t : Int) : Bool := decide (zeroTime ≤ t) && decide (t < yearZeroStart)
+
+/-- `INTERVAL n UNIT` as a `TimeDelta` (expression.Interval.EvalDelta, single-unit intervals) -/
+def sqlUnitDelta (unit : String) (n : Int) : Option Delta :=
+  match unit with
+  | "YEAR" => some { years := n, months := 0, days := 0, hours := 0, minutes := 0, seconds := 0, micros := 0 }
+  | "QUARTER" => some { years := 0, months := 3 * n, days := 0, hours := 0, minutes := 0, seconds := 0, micros := 0 }
+  | "MONTH" => some { years := 0, months := n, days := 0, hours := 0, minutes := 0, seconds := 0, micros := 0 }
+  | "WEEK" => some { years := 0, months := 0, days := 7 * n, hours := 0, minutes := 0, seconds := 0, micros := 0 }
+  | "DAY" => some { years := 0, months := 0, days := n, hours := 0, minutes := 0, seconds := 0, micros := 0 }
+  | "HOUR" => some { years := 0, months := 0, days := 0, hours := n, minutes := 0, seconds := 0, micros := 0 }
+  | "MINUTE" => some { years := 0, months := 0, days := 0, hours := 0, minutes := n, seconds := 0, micros := 0 }
+  | "SECOND" => some { years := 0, months := 0, days := 0, hours := 0, minutes := 0, seconds := n, micros := 0 }
+  | "MICROSECOND" => some { years := 0, months := 0, days := 0, hours := 0, minutes := 0, seconds := 0, micros := n }
+  | _ => none
 
 end Gms.Cal
